@@ -54,6 +54,10 @@ package expand
 //@   ensures[C07] all-pages-read: result1 == nil && result0 != nil && istype(subject, *relationtuple.SubjectSet) && result0.Type != ketoapi.TreeNodeLeaf ==> nextPage == ""
 //@   ensures[C09] visited-or-empty-is-nil: result1 != nil ==> result0 == nil
 //@   ensures[C16] well-formed-tree: result0 != nil ==> wftree(result0)
+//@   ensures[C09] node-is-the-requested-subject: result0 != nil ==> result0.Subject == subject
+//@   callsite Manager.GetRelationTuples requires[C09] lists-exactly-the-members-of-the-subject-set: $arg2 != nil && deref($arg2.Namespace) == subSet.Namespace && deref($arg2.Object) == subSet.Object && deref($arg2.Relation) == subSet.Relation && $arg2.Subject == nil
+//@   callsite (*Engine).buildTreeRecursive requires[C09] child-is-a-listed-member: $arg2 == r.Subject
+//@   loop 2 invariant[C09] every-child-is-a-listed-member: forall k in 0..$n :: children[k] != nil && children[k].Subject == rels[k].Subject
 //@   loop 1 invariant[C16] subTree.Subject == subject && (forall k in 0..len(subTree.Children) :: wftree(subTree.Children[k]))
 //@   loop 2 invariant[C16] forall k in 0..$n :: wftree(children[k])
 //@   loop 2 invariant[C16] subTree.Subject == subject && (forall k in 0..len(subTree.Children) :: wftree(subTree.Children[k]))
